@@ -35,7 +35,7 @@ ASSUMPTIONS = ["the pristine twin runs first in the same worker process from a r
                "values of random fields may differ right after the aborted call; the comparison starts with the first "
                "continuation call after both sessions were re-seeded"]
 CASE_TIMEOUT = 180
-FAULT_KINDS = ["cons", "with_raise", "pre", "post", "unsat", "unsat_debug", "unsat_free", "dyn_raise", "unsat_ext"]
+FAULT_KINDS = ["cons", "with_raise", "pre", "post", "unsat", "unsat_debug", "unsat_free", "dyn_raise", "unsat_ext", "build_error_ext"]
 
 
 def plan(tier):
@@ -109,8 +109,10 @@ def gen_case(rng, tier, idx):
                 fault["inline"] = contra
         elif fk == "unsat_free":
             fault.update(fields=[list(p)], inline=contra)
-        elif fk == "unsat_ext":
+        elif fk in ("unsat_ext", "build_error_ext"):
             # unsatisfiable randomize_with whose inline constraints also name a field of ANOTHER object
+            # (build_error_ext: instead of being unsatisfiable the call names a part-select beyond the field, which the
+            # solver library rejects while the formula is built - an exception out of the middle of the lowering)
             tops = [(q, qd) for q, qd in rands if len(q) == 1]
             if not tops:
                 continue
@@ -192,7 +194,7 @@ def run_scenario(spec, with_fault):
     m4 = []
     fault = spec["fault"]
     ox = None
-    if fault["kind"] == "unsat_ext":
+    if fault["kind"] in ("unsat_ext", "build_error_ext"):
         with quiet():
             ox = sess.bt.new(spec["prog"]["top"])
         ox.set_randstate(RandState.mkFromSeed(spec["seed"] + 17))
@@ -248,6 +250,11 @@ def run_scenario(spec, with_fault):
                     with o.randomize_with(solve_fail_debug=1 if fault.get("debug") else 0) as it:
                         getattr(it, fault["field"]) != getattr(ox, fault["field"])
                         B.Emitter(sess.bt, it).stmts(fault["inline"])
+            elif fk == "build_error_ext":
+                with quiet():
+                    with o.randomize_with() as it:
+                        getattr(it, fault["field"]) != getattr(ox, fault["field"])
+                        getattr(it, fault["field"])[fault["width"] + 2:1] == 0
             elif fk == "unsat_free":
                 fos = [sess.raw_field("o0", fp_) for fp_ in fault["fields"]]
                 with quiet():
@@ -272,7 +279,7 @@ def run_scenario(spec, with_fault):
         # a fault that strikes before the solve completed (construction of another object, pre_randomize, an
         # unsatisfiable system) must leave every list as long as the user had it; after with-block / post_randomize
         # faults the solve itself succeeded and may legitimately have re-sized a random-size list
-        if lens_after != lens_before and fk in ("cons", "pre", "unsat", "unsat_debug", "unsat_free", "unsat_ext"):
+        if lens_after != lens_before and fk in ("cons", "pre", "unsat", "unsat_debug", "unsat_free", "unsat_ext", "build_error_ext"):
             m4.append(("failed-call-changed-list-length", "the %s fault (%s) changed the exposed length of lists: before %s, after %s" % (
                 fk, raised, lens_before, lens_after)))
         fp_after = fingerprint(o.get_model())
